@@ -77,7 +77,7 @@ def faults_for(name, data, newest_wal, rng, tier):
 
 def pick_cfg(rng, i):
     return {"metric": ["euc", "cos", "ip"][i % 3], "dim": [4, 8, 3][i % 3], "cap": [1000, 4][i % 2], "snap": [2, 3, 1][i % 3],
-            "rot": [1, 150, 400][i % 3], "fsync": "Always", "ni": CONSTS["NI"], "nv": CONSTS["NV"], "vseed": rng.randrange(1, 1 << 30)}
+            "rot": [1, 150, 400, 250][i % 4], "fsync": "Always", "ni": CONSTS["NI"], "nv": CONSTS["NV"], "vseed": rng.randrange(1, 1 << 30)}
 
 
 def classify(f, name, manifest, ev):
@@ -179,7 +179,7 @@ def run(tier):
     ck = Check("C13", tier, level="fault_enumeration")
     vlib.build()
     rng = random.Random(seed())
-    n, d = (24, 8) if tier == "quick" else (150, 11)
+    n, d = (30, 14) if tier == "quick" else (200, 18)
     r = tlc("HistGen", consts=dict(CONSTS, MaxOps=d, MaxRestarts=1, MaxSnaps=2), simulate=n, depth=d + 2, seed_=seed() * 13 + 5)
     ck.add_tlc("HistGen simulate", r)
     trace, counters = [], {}
